@@ -42,8 +42,8 @@ Qed.
 Definition tuple_cycle : obj := ONode 0 KTuple [(KI 0, ONode 1 KList [(KI 0, ORef 0 KTuple)])].
 
 Lemma tuple_cycle_witness :
-  exists root, remap None (collect_defs root) root <> spec_remap None root
-               /\ exists m lg, remap None (collect_defs root) root
+  exists root, remap None true (collect_defs root) root <> spec_remap None root
+               /\ exists m lg, remap None true (collect_defs root) root
                     = Done (ONode 0 KTuple [(KI 0, ONode 1 KList [(KI 0, OBlank KTuple)])]) m lg.
 Proof.
   exists tuple_cycle. split.
